@@ -26,7 +26,7 @@ def u32(v, be):
     return struct.pack(">I" if be else "<I", v & 0xffffffff)
 
 
-def build_obj(funcs, externs, be, junk):
+def build_obj(funcs, externs, be, junk, ext_type=0):
     """funcs: list of (name, words [int or ('jal', target_name)]); returns ELF32 .o bytes"""
     e = ">" if be else "<"
     text = b""
@@ -45,7 +45,8 @@ def build_obj(funcs, externs, be, junk):
     for name, words in funcs:
         syms.append((name, offsets[name], 4 * len(words), (1 << 4) | 2, 1))
     for name in externs:
-        syms.append((name, 0, 0, (1 << 4) | 0, 0))
+        # undefined (SHN_UNDEF) reference: NOTYPE, or FUNC as GNU as writes it after '.type callee, @function'
+        syms.append((name, 0, 0, (1 << 4) | ext_type, 0))
     strtab = b"\0"
     sym_index = {}
     symtab = b""
@@ -152,8 +153,11 @@ def case(draw):
     called = sorted(set(draw(st.lists(st.sampled_from(names), min_size=1, max_size=3))))
     org = draw(st.sampled_from([0x0, 0x1000, 0x12340, 0x400000, 0x08900000]))
     pre = draw(st.integers(0, 3))
+    ext_type = draw(st.sampled_from([0, 0, 2]))
+    # archive members that are not objects (odd and even sizes: a pad byte follows an odd sized member)
+    ar_extra = draw(st.lists(st.tuples(st.integers(0, 3), st.sampled_from([1, 2, 13, 14, 33, 100, 101])), max_size=2))
     return dict(names=names, funcs=funcs, assign=assign, nobj=nobj, be=be, container=container, junk=junk,
-                called=called, org=org, pre=pre)
+                called=called, org=org, pre=pre, ext_type=ext_type, ar_extra=ar_extra)
 
 
 def closure(c):
@@ -199,11 +203,14 @@ class Checker:
         for k in range(c["nobj"]):
             mine = [(n, c["funcs"][n]) for n, a in zip(c["names"], c["assign"]) if a == k]
             ext = sorted(set(w[1] for n, ws in mine for w in ws if isinstance(w, tuple)) - set(n for n, _ in mine))
-            objs.append(("obj%d.o" % k, build_obj(mine, ext, c["be"], c["junk"]), [n for n, _ in mine]))
+            objs.append(("obj%d.o" % k, build_obj(mine, ext, c["be"], c["junk"], c.get("ext_type", 0)), [n for n, _ in mine]))
         files = []
         if c["container"] == "ar":
-            symtab = [(n, i) for i, (_, _, ns) in enumerate(objs) for n in ns]
-            data = build_ar([(fn, b) for fn, b, _ in objs], symtab)
+            members = [(fn, b, ns) for fn, b, ns in objs]
+            for j, (pos, size) in enumerate(c.get("ar_extra", [])):
+                members.insert(min(pos, len(members)), ("NOTES%d" % j, bytes((65 + (i % 26)) for i in range(size)), []))
+            symtab = [(n, i) for i, (_, _, ns) in enumerate(members) for n in ns]
+            data = build_ar([(fn, b) for fn, b, _ in members], symtab)
             open(os.path.join(d, "lib.a"), "wb").write(data)
             files = ["lib.a"]
         else:
